@@ -192,6 +192,13 @@ RemoveArt(s, e) ==
       !.cfgNewer = [@ EXCEPT ![e] = FALSE],
       !.mt = Without(@, e) ]
 
+\* e's certificate verifies under, and names, the current certificate of the issuer e's configuration names
+ChainOK(s, e) ==
+  LET a == s.art[e] IN
+  /\ a.sigok /\ a.iss = s.par[e]
+  /\ IF s.par[e] = "" THEN a.issc = a.certc
+     ELSE s.art[s.par[e]].cert /\ a.issc = s.art[s.par[e]].certc
+
 Idle(s, last) == [s EXCEPT !.pc = "idle", !.plan = <<>>, !.pos = 0, !.last = last]
 NextEnt(s)   == s.plan[s.pos]
 
@@ -214,6 +221,16 @@ Apply(s, a) ==
     [] a.name = "StripKey" ->      \* the PRIVATE KEY block is removed from the file
          IF a.e \in s.present /\ s.pc = "idle" /\ s.art[a.e].key = "key"
          THEN {[PutArt(s, a.e, [s.art[a.e] EXCEPT !.key = "none"], FALSE) EXCEPT !.last = "env", !.flags = {}]}
+         ELSE {}
+    [] a.name = "ResaveArt" ->     \* the artifact file is saved again with something after its last block (an empty line, a
+                                   \* comment, CRLF): the same hash line and blocks, a new modification time
+                                   \* Domain: the file holds something decodable, and a certificate gopki produced is not stale
+                                   \* at that moment.  (Staleness after an interrupted run is detected by modification times only
+                                   \* - C11's rule; refreshing the time of a stale file hides it.  The histories the properties
+                                   \* speak of are edits, deletions, corruptions and runs, not that; DESIGN.md 12.4.)
+         IF a.e \in s.present /\ s.pc = "idle" /\ s.art[a.e].exists /\ HasArt(s.art[a.e])
+            /\ (s.art[a.e].cert /\ s.art[a.e].hash # NoHash => ChainOK(s, a.e))
+         THEN {[PutArt(s, a.e, s.art[a.e], FALSE) EXCEPT !.last = "env", !.flags = {}]}
          ELSE {}
     [] a.name = "Replace" ->       \* user-supplied self-signed certificate + key, no hash line,
                                    \* made for the current configuration
@@ -329,6 +346,7 @@ TouchAct    == "Touch" \in EnvActs /\ \E e \in Ents : EnvStep([name |-> "Touch",
 DeleteAct   == "DeleteArt" \in EnvActs /\ \E e \in Ents : EnvStep([name |-> "DeleteArt", e |-> e])
 TruncateAct == "Truncate" \in EnvActs /\ \E e \in Ents, c \in CutClasses : EnvStep([name |-> "Truncate", e |-> e, cut |-> c])
 StripKeyAct == "StripKey" \in EnvActs /\ \E e \in Ents : EnvStep([name |-> "StripKey", e |-> e])
+ResaveAct   == "ResaveArt" \in EnvActs /\ \E e \in Ents : EnvStep([name |-> "ResaveArt", e |-> e])
 ReplaceAct  == "Replace" \in EnvActs /\ \E e \in Ents : EnvStep([name |-> "Replace", e |-> e])
 MakeCsrAct  == "MakeCsr" \in EnvActs /\ \E e \in Ents : EnvStep([name |-> "MakeCsr", e |-> e])
 EditProfileAct == "EditProfile" \in EnvActs /\ UsesProfile # {} /\ \E c \in Contents : EnvStep([name |-> "EditProfile", c |-> c])
@@ -346,7 +364,7 @@ WriteTornAct == "WriteTorn" \in FaultActs /\ \E c \in CutClasses : Step([name |-
 DieAct      == "Die" \in FaultActs /\ Step([name |-> "Die"])
 
 Next ==
-  \/ EditAct \/ TouchAct \/ DeleteAct \/ TruncateAct \/ StripKeyAct \/ ReplaceAct \/ MakeCsrAct \/ EditProfileAct \/ ExpireAct \/ SetIssuerAct \/ RemoveConfigAct \/ AddConfigAct
+  \/ EditAct \/ TouchAct \/ DeleteAct \/ TruncateAct \/ StripKeyAct \/ ResaveAct \/ ReplaceAct \/ MakeCsrAct \/ EditProfileAct \/ ExpireAct \/ SetIssuerAct \/ RemoveConfigAct \/ AddConfigAct
   \/ StartRunAct \/ WriteOKAct \/ SignFailAct \/ WriteErrAct \/ WriteTornAct \/ DieAct
 
 vars == <<st, nenv>>
@@ -359,12 +377,6 @@ TypeInv == TypeOK(st)
 
 \* a private key never appears without its certificate (file order: certificate first)
 KeyImpliesCert == \A e \in Ents : st.art[e].key = "key" => st.art[e].cert
-
-ChainOK(s, e) ==
-  LET a == s.art[e] IN
-  /\ a.sigok /\ a.iss = s.par[e]
-  /\ IF s.par[e] = "" THEN a.issc = a.certc
-     ELSE s.art[s.par[e]].cert /\ a.issc = s.art[s.par[e]].certc
 
 Converged(s) ==
   \A e \in s.present :
